@@ -319,6 +319,11 @@ def main(run_fn, pid, argv=None):
         run_fn(ck)
         return ck.finish_rc if hasattr(ck, 'finish_rc') else 0
     except Machinery as e:
+        if ck.violations and not hasattr(ck, 'finish_rc'):
+            # A guard of the machinery (vacuity, completeness of a run) tripped AFTER violations had been recorded: the code
+            # under test misbehaves so badly that a later leg could not do its job.  The violations are the finding.
+            ck.notes.append(f'a later leg could not complete: {str(e)[:1500]}')
+            return ck.finish(rule='incomplete run: reported after a machinery guard tripped')
         print(f'MACHINERY-FAILURE property={pid}: {e}', file=sys.stderr)
         return 2
     except Exception:
